@@ -156,6 +156,40 @@ class Snapshot:
             self.cfg_ready[cfg] = d
             return d
 
+    def libm_table(self, cfg: str) -> str:
+        """generate the libm stub for this configuration: sqrt/log2/round only occur in tuning expressions over the
+        cache-size constants and small integers; the table maps exactly those arguments to the values of the host libm
+        (python's math uses the same C library) and asserts on any other argument"""
+        import math
+        d = self.cfg_dir(cfg)
+        out = os.path.join(d, "libm_table.c")
+        with self.lock:
+            if os.path.isfile(out):
+                return out
+            txt = open(os.path.join(d, "m4ri", "m4ri_config.h")).read()
+            def val(k, default):
+                m = re.search(r"#define\s+%s\s+(\d+)" % k, txt)
+                v = int(m.group(1)) if m else 0
+                return v if v else default
+            l1, l2, l3 = val("__M4RI_CPU_L1_CACHE", 16384), val("__M4RI_CPU_L2_CACHE", 262144), val("__M4RI_CPU_L3_CACHE", 0)
+            if l3 == 0:
+                l3 = l2 if l2 else 4194304
+            lines = ["/* generated: libm values for the tuning expressions of configuration %s (L1=%d L2=%d L3=%d) */" % (cfg, l1, l2, l3),
+                     "double sqrt(double x) {"]
+            for a in sorted(set([4 * l3])):
+                lines.append("  if (x == %r) return %r;" % (float(a), math.sqrt(a)))
+            lines += ['  __CPROVER_assert(0, "libm stub: sqrt called with an argument outside the tuning expressions");', "  return 0.0;", "}", "double log2(double x) {"]
+            for w in range(1, 65):
+                a = (l2 // 64) / float(w)
+                lines.append("  if (x == %r) return %r;" % (a, math.log2(a) if a > 0 else 0.0))
+            lines += ['  __CPROVER_assert(0, "libm stub: log2 called with an argument outside the tuning expressions");', "  return 0.0;", "}", "double round(double x) {"]
+            for f in range(0, 32):
+                a = 0.75 * f
+                lines.append("  if (x == %r) return %r;" % (a, float(round(a)) if (a % 1) != 0.5 else float(math.floor(a + 0.5))))
+            lines += ['  __CPROVER_assert(0, "libm stub: round called with an argument outside the tuning expressions");', "  return 0.0;", "}"]
+            open(out, "w").write("\n".join(lines) + "\n")
+        return out
+
     def cflags(self, cfg: str) -> List[str]:
         d = self.cfg_dir(cfg)
         return BASE_CFLAGS + ["-I" + d, "-I" + os.path.join(d, "m4ri"), "-I" + os.path.join(VERIF, "contracts"),
@@ -170,7 +204,10 @@ class Snapshot:
             if key in self.obj_ready:
                 return self.obj_ready[key]
             d = self.cfg_dir(cfg)
-            if tu.startswith("/"):
+            if tu == "@libm":
+                srcf = self.libm_table(cfg)
+                name = "libm_table"
+            elif tu.startswith("/"):
                 srcf = tu
                 name = os.path.basename(tu)[:-2]
             else:
@@ -230,6 +267,7 @@ class Group:
     min_obligations: int = 1
     solver: Optional[str] = None               # e.g. "--sat-solver cadical"
     remove_bodies: List[str] = field(default_factory=list)   # function bodies dropped BEFORE dfcc (functions outside the group, unreachable after call replacement)
+    spec_unwind: Optional[int] = None           # bound for all loops of spec-side functions (vp_*): known from the instance's constants
     assert_mode: bool = False                  # compile with -DVP_ASSERT_MODE: contract text assumed/asserted by the harness, no dfcc instrumentation
     pre_unwindset: Dict[str, int] = field(default_factory=dict)   # loops unwound by goto-instrument BEFORE dfcc (contract-less loops enclosing contracted ones)
 
@@ -408,6 +446,11 @@ class Runner:
         if gb is None:
             return res
         us = dict(g.unwindset)
+        if g.spec_unwind:
+            rc, so, se, dt, to = _run(["goto-instrument", "--show-loops", gb], timeout=300)
+            for m in re.finditer(r"^Loop (\S+):", so, flags=re.M):
+                if m.group(1).startswith("vp_") or m.group(1).startswith("harness."):
+                    us.setdefault(m.group(1), g.spec_unwind)
         if g.refine:
             ok = self._refine(g, gb, us, res)
             if not ok:
